@@ -142,58 +142,89 @@ def rule_p4(ctx: Ctx, m: SharedModel) -> None:
 
 
 def rule_p5(ctx: Ctx, m: SharedModel) -> None:
+    """Lookup-or-insert on the instance map, whatever the idiom (get + `is None`, try/except KeyError, `in` test):
+    one key expression for every lookup and for the store, the stored object is the one created for that key and
+    the one returned on a miss, the looked-up object is returned on a hit."""
     new = ctx.repo.need_method("Av", "__new__")
     cc = m.class_containers
     if not cc:
         ctx.ok("C02-P5", new.where, "no instance map: every construction yields a fresh, private instance")
         return
-    get_stmt = None
-    for st in new.body:
-        if isinstance(st, ast.Assign) and isinstance(st.value, ast.Call):
-            cn = call_name(st.value)
-            if cn and cn[-1] == "get" and cn[-2] in cc:
-                get_stmt = st
-    if get_stmt is None:
+
+    def is_map(e: ast.AST) -> bool:
+        ch = attr_chain(e)
+        return bool(ch) and ch[-1] in cc and len(ch) == 2 and ch[0] in ("Av", "cls")
+
+    lookups, stores, creations, returns = [], [], [], []
+    got_var = {}
+    for node in walk_no_nested(new.node):
+        if isinstance(node, ast.Call) and isinstance(node.func, ast.Attribute) and node.func.attr == "get" and is_map(node.func.value) and node.args:
+            lookups.append(("get", unparse(node.args[0]), node))
+        if isinstance(node, ast.Subscript) and isinstance(node.ctx, ast.Load) and is_map(node.value):
+            lookups.append(("item", unparse(node.slice), node))
+        if isinstance(node, ast.Compare) and len(node.ops) == 1 and isinstance(node.ops[0], (ast.In, ast.NotIn)) and is_map(node.comparators[0]):
+            lookups.append(("in", unparse(node.left), node))
+        if isinstance(node, (ast.Assign, ast.AnnAssign)) and node.value is not None:
+            tgt = node.targets[0] if isinstance(node, ast.Assign) else node.target
+            if isinstance(tgt, ast.Subscript) and is_map(tgt.value):
+                stores.append((unparse(tgt.slice), unparse(node.value), node))
+            if isinstance(tgt, ast.Name) and isinstance(node.value, ast.Call) and call_name(node.value) and call_name(node.value)[-1] == "__new__":
+                creations.append((tgt.id, node))
+            if isinstance(tgt, ast.Name) and isinstance(node.value, ast.Call) and isinstance(node.value.func, ast.Attribute) and node.value.func.attr == "get" and is_map(node.value.func.value):
+                got_var[tgt.id] = node
+        if isinstance(node, ast.Return) and node.value is not None:
+            returns.append(node)
+    if not lookups:
         raise AnalysisError(f"{new.where}: identity-map lookup not recognised")
-    var = get_stmt.targets[0].id
-    key = unparse(get_stmt.value.args[0])
-    pos = new.body.index(get_stmt)
-    rest = new.body[pos + 1:]
-    miss = [st for st in rest if isinstance(st, ast.If) and unparse(st.test) in (f"{var} is None", f"not {var}")]
-    if len(miss) != 1:
-        raise AnalysisError(f"{new.where}: miss branch not recognised")
-    mb = miss[0]
-    created, stored, returned = None, None, None
-    for st in mb.body:
-        if isinstance(st, (ast.Assign, ast.AnnAssign)):
-            tgt = st.targets[0] if isinstance(st, ast.Assign) else st.target
-            if isinstance(tgt, ast.Name) and isinstance(st.value, ast.Call) and call_name(st.value) and call_name(st.value)[-1] == "__new__":
-                created = (tgt.id, st)
-            if isinstance(tgt, ast.Subscript) and attr_chain(tgt.value) and attr_chain(tgt.value)[-1] in cc:
-                stored = (unparse(tgt.slice), unparse(st.value), st)
-        if isinstance(st, ast.Return):
-            returned = unparse(st.value) if st.value is not None else None
-    if created is None or stored is None:
-        ctx.violation("C02-P5", new, mb, "on a miss the new instance is not stored in the instance map: equal bases would denote different class objects")
+    keys = {k for _kind, k, _n in lookups}
+    if len(keys) != 1:
+        ctx.violation("C02-P5", new, lookups[0][2], f"the instance map is consulted under different keys {sorted(keys)}")
         return
-    if stored[0] != key:
-        ctx.violation("C02-P5", new, stored[2], f"instance stored under key `{stored[0]}` but looked up under `{key}`")
+    key = keys.pop()
+    if not stores:
+        ctx.violation("C02-P5", new, lookups[0][2], "on a miss the new instance is not stored in the instance map: equal bases would denote different class objects")
         return
-    if stored[1] != created[0] or returned != created[0]:
-        ctx.violation("C02-P5", new, stored[2], f"miss path stores `{stored[1]}` and returns `{returned}`; both must be the new instance `{created[0]}`")
+    if len(stores) != 1 or len(creations) != 1:
+        raise AnalysisError(f"{new.where}: miss path not recognised ({len(stores)} stores, {len(creations)} creations)")
+    skey, sval, snode = stores[0]
+    cvar, cnode = creations[0]
+    if skey != key:
+        ctx.violation("C02-P5", new, snode, f"instance stored under key `{skey}` but looked up under `{key}`")
         return
-    # the created instance carries the same basis that is the key
-    call = created[1].value
+    ret_txt = [unparse(r.value) for r in returns]
+    if sval != cvar or cvar not in ret_txt:
+        ctx.violation("C02-P5", new, snode, f"miss path stores `{sval}` and returns {ret_txt}; both must be the new instance `{cvar}`")
+        return
+    call = cnode.value
     if len(call.args) < 2 or unparse(call.args[1]) != key:
-        ctx.violation("C02-P5", new, created[1], f"new instance is created for `{unparse(call.args[1]) if len(call.args) > 1 else '?'}` but registered under `{key}`")
+        ctx.violation("C02-P5", new, cnode, f"new instance is created for `{unparse(call.args[1]) if len(call.args) > 1 else '?'}` but registered under `{key}`")
         return
-    # hit path
-    after = rest[rest.index(mb) + 1:]
-    hit_ret = [st for st in list(mb.orelse) + after if isinstance(st, ast.Return)]
-    if not hit_ret or unparse(hit_ret[0].value) != var:
-        ctx.violation("C02-P5", new, hit_ret[0] if hit_ret else mb, f"hit path does not return the cached instance `{var}`")
+    # hit path: the looked-up object itself is returned
+    hit = [t for t in ret_txt if t in got_var or any(t == unparse(n) for kind, _k, n in lookups if kind == "item")]
+    if not hit:
+        ctx.violation("C02-P5", new, returns[0] if returns else new.node, "hit path does not return the cached instance")
         return
-    ctx.ok("C02-P5", new.where, f"lookup `{key}` -> miss: create, store under the same key, return; hit: return the cached object", get_stmt, new)
+    # the hit return must not be reachable on a miss: accepted guards
+    guarded = False
+    for r in returns:
+        t = unparse(r.value)
+        if t in got_var:
+            v = t
+            # `if v is None: <miss, ends in return>` before, or `if v is not None: return v`
+            for st in walk_no_nested(new.node):
+                if isinstance(st, ast.If) and unparse(st.test) in (f"{v} is None", f"not {v}") and st.body and isinstance(st.body[-1], ast.Return) and not any(sub is r for sub in ast.walk(st)):
+                    guarded = True
+                if isinstance(st, ast.If) and unparse(st.test) in (f"{v} is not None", v) and any(sub is r for sub in st.body):
+                    guarded = True
+        elif any(t == unparse(n) for kind, _k, n in lookups if kind == "item"):
+            for st in walk_no_nested(new.node):
+                if isinstance(st, ast.Try) and any(sub is r for b in st.body for sub in ast.walk(b)) and any(h.type is not None and unparse(h.type) in ("KeyError", "LookupError") for h in st.handlers):
+                    guarded = True
+                if isinstance(st, ast.If) and unparse(st.test) == f"{key} in {unparse(snode.targets[0].value) if isinstance(snode, ast.Assign) else ''}" and any(sub is r for sub in st.body):
+                    guarded = True
+    if not guarded:
+        raise AnalysisError(f"{new.where}: the guard separating hit and miss is not recognised")
+    ctx.ok("C02-P5", new.where, f"lookup `{key}` -> miss: create, store under the same key, return; hit: return the cached object", lookups[0][2], new)
 
 
 S1 = [
@@ -253,57 +284,86 @@ def rule_s1(ctx: Ctx, m: SharedModel) -> None:
 
 def check_all(ctx: Ctx, fi: FuncInfo) -> None:
     """``_all`` yields of_length(0), of_length(1), ... in ascending order; an early exit at the first
-    empty level is a theorem only for classical bases (classes closed under containment)."""
+    empty level is a theorem only for classical bases (classes closed under containment).
+    Recognised round shapes: `yield from <level>`; `for p in <level>: yield p` (possibly with a flag); the peek form
+    `g = iter(level); first = next(g, None); if first is None: break; yield first; yield from g`.
+    Counter: `length = 0; while True: ...; length += 1` or `for length in itertools.count()`."""
     body = fi.body
-    if not (len(body) == 2 and isinstance(body[0], ast.Assign) and is_const(body[0].value) and isinstance(body[1], ast.While) and is_const(body[1].test, True)):
-        raise AnalysisError(f"{fi.where}: shape `length = 0; while True:` not recognised")
-    if not is_const(body[0].value, 0):
-        ctx.violation("C02-S1", fi, body[0], f"enumeration of all members starts at length {unparse(body[0].value)}, not 0")
-        return
-    counter = body[0].targets[0].id
-    loop = body[1]
-    # the counter advances by exactly +1 per iteration
-    incs = [st for st in loop.body if isinstance(st, ast.AugAssign) and isinstance(st.target, ast.Name) and st.target.id == counter]
-    if not (len(incs) == 1 and isinstance(incs[0].op, ast.Add) and is_const(incs[0].value, 1) and loop.body[-1] is incs[0]):
-        ctx.violation("C02-S1", fi, incs[0] if incs else loop, "lengths are not visited as 0, 1, 2, ... (counter must advance by exactly one at the end of each round)")
-        return
+    counter = loop = None
+    if len(body) == 2 and isinstance(body[0], ast.Assign) and is_const(body[0].value) and isinstance(body[1], ast.While) and is_const(body[1].test, True):
+        if not is_const(body[0].value, 0):
+            ctx.violation("C02-S1", fi, body[0], f"enumeration of all members starts at length {unparse(body[0].value)}, not 0")
+            return
+        counter = body[0].targets[0].id
+        loop = body[1]
+        incs = [st for st in loop.body if isinstance(st, ast.AugAssign) and isinstance(st.target, ast.Name) and st.target.id == counter]
+        if not (len(incs) == 1 and isinstance(incs[0].op, ast.Add) and is_const(incs[0].value, 1) and loop.body[-1] is incs[0]):
+            if len(incs) == 1 and loop.body[-1] is incs[0] and isinstance(incs[0].op, ast.Add) and isinstance(incs[0].value, ast.Constant):
+                ctx.violation("C02-S1", fi, incs[0], "lengths are not visited as 0, 1, 2, ... (counter must advance by exactly one at the end of each round)")
+                return
+            raise AnalysisError(f"{fi.where}: the way the length counter advances is not recognised")
+        round_body = [st for st in loop.body if st is not incs[0]]
+    elif len(body) == 1 and isinstance(body[0], ast.For) and unparse(body[0].iter) in ("itertools.count()", "count()", "itertools.count(0)", "count(0)") and isinstance(body[0].target, ast.Name):
+        loop = body[0]
+        counter = loop.target.id
+        round_body = list(loop.body)
+    else:
+        raise AnalysisError(f"{fi.where}: shape `length = 0; while True:` / `for length in count():` not recognised")
     # the level source
     srcs = [n for n in ast.walk(loop) if isinstance(n, ast.Call) and call_name(n) and call_name(n)[-1] in ("of_length", "_get_level")]
-    if not (len(srcs) == 1 and len(srcs[0].args) == 1 and unparse(srcs[0].args[0]) == counter and call_name(srcs[0])[0] == fi.params[0]):
-        ctx.violation("C02-S1", fi, loop, f"round `{counter}` does not enumerate self.of_length({counter})")
+    if len(srcs) != 1:
+        raise AnalysisError(f"{fi.where}: the level visited in a round is not recognised")
+    if not (len(srcs[0].args) == 1 and call_name(srcs[0])[0] == fi.params[0]):
+        raise AnalysisError(f"{fi.where}: the level visited in a round is not recognised")
+    if unparse(srcs[0].args[0]) != counter:
+        ctx.violation("C02-S1", fi, loop, f"round `{counter}` enumerates `{unparse(srcs[0])}`, not self.of_length({counter})")
         return
     ctx.ok("C02-S1", fi.where, f"_all visits of_length({counter}) for {counter} = 0, 1, 2, ...", loop, fi)
-    # every element of the visited level is yielded: either `yield from <level>` directly, or the peeked first
-    # element followed by the rest of the same iterator
-    gens = {unparse(st.targets[0]): st for st in loop.body if isinstance(st, ast.Assign) and any(sub is srcs[0] for sub in ast.walk(st.value))}
-    yields = [st for st in loop.body if isinstance(st, ast.Expr) and isinstance(st.value, (ast.Yield, ast.YieldFrom))]
+    # every element of the visited level is yielded
+    gens = {unparse(st.targets[0]): st for st in round_body if isinstance(st, ast.Assign) and any(sub is srcs[0] for sub in ast.walk(st.value))}
+    yields = [st for st in round_body if isinstance(st, ast.Expr) and isinstance(st.value, (ast.Yield, ast.YieldFrom))]
     peeks = {}
-    for st in loop.body:
+    for st in round_body:
         if isinstance(st, (ast.Assign, ast.AnnAssign)) and st.value is not None and isinstance(st.value, ast.Call) and call_name(st.value) == ("next",) and len(st.value.args) == 2:
             tgt = st.target if isinstance(st, ast.AnnAssign) else st.targets[0]
             peeks[unparse(tgt)] = unparse(st.value.args[0])
     direct = any(isinstance(y.value, ast.YieldFrom) and any(sub is srcs[0] for sub in ast.walk(y.value)) for y in yields)
+    loops_over = [st for st in round_body if isinstance(st, ast.For) and (any(sub is srcs[0] for sub in ast.walk(st.iter)) or unparse(st.iter) in gens)]
+    looped = False
+    flag_reset: Dict[str, str] = {}
+    if len(loops_over) == 1 and isinstance(loops_over[0].target, ast.Name):
+        lo = loops_over[0]
+        ys = [st for st in lo.body if isinstance(st, ast.Expr) and isinstance(st.value, ast.Yield) and st.value.value is not None and unparse(st.value.value) == lo.target.id]
+        others = [st for st in lo.body if st not in ys]
+        if len(ys) == 1 and all(isinstance(o, ast.Assign) and isinstance(o.value, ast.Constant) for o in others) and not lo.orelse:
+            looped = True
+            for o in others:
+                flag_reset[unparse(o.targets[0])] = unparse(o.value)
+        elif not ys:
+            ctx.violation("C02-S1", fi, lo, f"the loop over of_length({counter}) does not yield its elements")
+            return
     ytxt = [("from " if isinstance(y.value, ast.YieldFrom) else "") + (unparse(y.value.value) if y.value.value is not None else "") for y in yields]
     peeked = False
     for first, g in peeks.items():
-        if g in gens and ytxt == [first, f"from {g}"]:
-            peeked = True
-            # the sentinel test must come between the peek and the yield
-            guard_pos = [i for i, st in enumerate(loop.body) if isinstance(st, ast.If) and unparse(st.test) in (f"{first} is None", f"not {first}")
-                         and st.body and isinstance(st.body[-1], (ast.Break, ast.Return, ast.Continue))]
-            ypos = loop.body.index(yields[0])
-            if not guard_pos or guard_pos[0] > ypos:
-                ctx.violation("C02-S1", fi, yields[0], f"the peeked element `{first}` is yielded without testing the exhaustion sentinel first: None is reported as a member for an empty level")
+        if g in gens:
+            if ytxt == [first, f"from {g}"]:
+                peeked = True
+                guard_pos = [i for i, st in enumerate(round_body) if isinstance(st, ast.If) and unparse(st.test) in (f"{first} is None", f"not {first}")
+                             and st.body and isinstance(st.body[-1], (ast.Break, ast.Return, ast.Continue))]
+                ypos = round_body.index(yields[0])
+                if not guard_pos or guard_pos[0] > ypos:
+                    ctx.violation("C02-S1", fi, yields[0], f"the peeked element `{first}` is yielded without testing the exhaustion sentinel first: None is reported as a member for an empty level")
+                    return
+            elif set(ytxt) < {first, f"from {g}"}:
+                ctx.violation("C02-S1", fi, loop, f"the round peeks the first element of of_length({counter}) but does not yield both it and the rest (yields: {ytxt})")
                 return
-    if direct or peeked:
-        ctx.ok("C02-S1", fi.where, "every element of the visited level is yielded, in the level's order", yields[0], fi)
+    if direct or peeked or looped:
+        ctx.ok("C02-S1", fi.where, "every element of the visited level is yielded, in the level's order", (yields or loops_over)[0], fi)
     else:
-        ctx.violation("C02-S1", fi, loop, f"the loop does not yield every element of of_length({counter}) (yields: {ytxt})")
-        return
+        raise AnalysisError(f"{fi.where}: how a round yields the elements of of_length({counter}) is not recognised (yields: {ytxt})")
     # early exits
-    breaks = [n for n in ast.walk(loop) if isinstance(n, (ast.Break, ast.Return))]
+    breaks = [n for n in ast.walk(loop) if isinstance(n, (ast.Break, ast.Return)) and not any(n in ast.walk(lo) for lo in loops_over)]
     for br in breaks:
-        # find the guarding `if`
         guard = None
         for n in ast.walk(loop):
             if isinstance(n, ast.If) and any(sub is br for sub in ast.walk(n)):
@@ -318,7 +378,7 @@ def check_all(ctx: Ctx, fi: FuncInfo) -> None:
             ctx.ok("C02-S1", fi.where, "early exit at an empty level only for classical bases (downward closed classes)", guard or br, fi)
         else:
             ctx.violation("C02-S1", fi, guard if guard is not None else br,
-                          "enumeration stops at the first empty level for every kind of basis; for mesh bases (classes not closed under containment) later levels may be non-empty, so first()/_all silently omit members")
+                          "enumeration stops at the first empty level for every kind of basis; for mesh bases (classes not closed under containment) later levels may be non-empty, so first()/_all silently omit members", tag="early-exit-for-every-kind-of-basis")
 
 
 # ------------------------------------------------------------------ thorough tier
@@ -387,6 +447,113 @@ def _variants():
 # ------------------------------------------------------------------ E1/E2: shape of the ensure step
 
 
+
+
+def dispatch_polarity(m: SharedModel, targets):
+    """Find the function that refers to both level constructions and say under which polarity of
+    `isinstance(self.basis, Basis)` each one is reached: 'Basis', 'not Basis' or '?'.
+    Understands if/else, `if C: ...; return` followed by the other case, and a conditional expression selecting
+    the bound method."""
+    names = [t.name for t in targets]
+    for fi in m.funcs:
+        refs = {nm: [n for n in walk_no_nested(fi.node) if isinstance(n, ast.Attribute) and n.attr == nm and isinstance(n.value, ast.Name)] for nm in names}
+        if not all(refs.values()):
+            continue
+        out = {}
+
+        def classify(test: ast.AST):
+            t = unparse(test)
+            if t in ("isinstance(self.basis, Basis)",):
+                return "Basis"
+            if t in ("not isinstance(self.basis, Basis)", "isinstance(self.basis, MeshBasis)"):
+                return "not Basis"
+            return None
+
+        def flip(p):
+            return {"Basis": "not Basis", "not Basis": "Basis"}.get(p, "?")
+
+        def walk(stmts, cond):
+            for i, st in enumerate(stmts):
+                if isinstance(st, ast.If):
+                    p = classify(st.test)
+                    walk(st.body, p if p and cond is None else (cond if p is None else "?"))
+                    walk(st.orelse, flip(p) if p and cond is None else (cond if p is None else "?"))
+                    ends = bool(st.body) and isinstance(st.body[-1], (ast.Return, ast.Raise, ast.Continue, ast.Break))
+                    if p and ends and not st.orelse and cond is None:
+                        walk(stmts[i + 1:], flip(p))
+                        return
+                    continue
+                for n in ast.walk(st):
+                    if isinstance(n, ast.IfExp):
+                        p = classify(n.test)
+                        for nm in names:
+                            if any(isinstance(x, ast.Attribute) and x.attr == nm for x in ast.walk(n.body)):
+                                out.setdefault(nm, set()).add(p if p and cond is None else "?")
+                            if any(isinstance(x, ast.Attribute) and x.attr == nm for x in ast.walk(n.orelse)):
+                                out.setdefault(nm, set()).add(flip(p) if p and cond is None else "?")
+                handled = {id(x) for n in ast.walk(st) if isinstance(n, ast.IfExp) for x in ast.walk(n)}
+                for n in ast.walk(st):
+                    if isinstance(n, ast.Attribute) and n.attr in names and id(n) not in handled:
+                        out.setdefault(n.attr, set()).add(cond if cond else "?")
+
+        walk(fi.body, None)
+        pols = []
+        for nm in names:
+            v = out.get(nm, {"?"})
+            pols.append(next(iter(v)) if len(v) == 1 else "?")
+        first = min((n for nm in names for n in refs[nm]), key=lambda n: n.lineno)
+        return fi, pols[0], pols[1], m.stmt_of(fi, first)
+    return None
+
+
+def level_build_summary(fi: FuncInfo):
+    """How a function appends levels to self.cache: (statement, range text, loop variable, source text, [filter texts],
+    key text, element variable) for `cache.extend({k: v for p in SRC if F} for i in RANGE)` or the equivalent loop
+    `for i in RANGE: D = {}; for p in SRC: [if F:] D[k] = v; cache.append(D)` (local aliases of self.cache / self.basis
+    are inlined).  None if the construction has another shape."""
+    from ..core import flow_env, subst_names
+
+    for st in fi.body:
+        env = {k: v for k, v in flow_env(fi, st).items() if isinstance(v, (ast.Attribute, ast.Name))}
+        node = subst_names(st, env) if env else st
+        # (G) cache.extend(<generator of dict comprehensions>)
+        if isinstance(node, ast.Expr) and isinstance(node.value, ast.Call) and unparse(node.value.func) == "self.cache.extend" and len(node.value.args) == 1 \
+                and isinstance(node.value.args[0], ast.GeneratorExp) and len(node.value.args[0].generators) == 1:
+            ge = node.value.args[0]
+            g = ge.generators[0]
+            if g.ifs or not isinstance(ge.elt, ast.DictComp) or len(ge.elt.generators) != 1:
+                return None
+            dc = ge.elt
+            inner = dc.generators[0]
+            return st, unparse(g.iter), unparse(g.target), unparse(inner.iter), [unparse(f) for f in inner.ifs], unparse(dc.key), unparse(inner.target)
+        # (L) one level per step
+        if isinstance(node, ast.For) and not node.orelse and node.body:
+            last = node.body[-1]
+            if not (isinstance(last, ast.Expr) and isinstance(last.value, ast.Call) and unparse(last.value.func) == "self.cache.append" and len(last.value.args) == 1):
+                continue
+            arg = last.value.args[0]
+            if isinstance(arg, ast.DictComp) and len(arg.generators) == 1 and len(node.body) == 1:
+                inner = arg.generators[0]
+                return st, unparse(node.iter), unparse(node.target), unparse(inner.iter), [unparse(f) for f in inner.ifs], unparse(arg.key), unparse(inner.target)
+            if not isinstance(arg, ast.Name) or len(node.body) != 3:
+                return None
+            init, fill = node.body[0], node.body[1]
+            if not (isinstance(init, (ast.Assign, ast.AnnAssign)) and init.value is not None and unparse(init.value) in ("{}", "dict()")
+                    and unparse(init.targets[0] if isinstance(init, ast.Assign) else init.target) == arg.id):
+                return None
+            if not (isinstance(fill, ast.For) and not fill.orelse and len(fill.body) == 1):
+                return None
+            body = fill.body[0]
+            filters = []
+            while isinstance(body, ast.If) and not body.orelse and len(body.body) == 1:
+                filters.append(unparse(body.test))
+                body = body.body[0]
+            if not (isinstance(body, ast.Assign) and len(body.targets) == 1 and isinstance(body.targets[0], ast.Subscript) and unparse(body.targets[0].value) == arg.id):
+                return None
+            return st, unparse(node.iter), unparse(node.target), unparse(fill.iter), filters, unparse(body.targets[0].slice), unparse(fill.target)
+    return None
+
+
 def rule_e1(ctx: Ctx, m: SharedModel) -> None:
     """cache[i] is level i: the cache starts with level 0 only, every missing level from len(cache) up to
     and including the requested one is built in ascending order, exactly one level is appended per step
@@ -427,28 +594,42 @@ def rule_e1(ctx: Ctx, m: SharedModel) -> None:
         ctx.violation("C02-E1", cls_f, lp, "a new level is not built from the last cached level self.cache[-1]")
     # mesh
     lvm = mesh_f.params[1]
-    ext = [s for s in m.sites if s.fi is mesh_f and s.kind == "field" and s.op == "extend"]
-    ok = False
-    if len(ext) == 1 and isinstance(ext[0].node.args[0], ast.GeneratorExp):
-        ge = ext[0].node.args[0]
-        g = ge.generators[0]
-        var = unparse(g.target)
-        if unparse(g.iter) in want_rng(lvm) and not g.ifs and isinstance(ge.elt, ast.DictComp):
-            dc = ge.elt
-            inner = dc.generators[0]
-            ok = unparse(inner.iter) == f"Perm.of_length({var})" and len(inner.ifs) == 1 and unparse(inner.ifs[0]) == f"{unparse(inner.target)}.avoids(*self.basis)" and unparse(dc.key) == unparse(inner.target)
-    if ok:
-        ctx.ok("C02-E1", mesh_f.where, "mesh bases: level i = every permutation of length i that avoids the whole basis, for i = len(cache) .. requested", ext[0].stmt, mesh_f)
+    summ = level_build_summary(mesh_f)
+    if summ is None:
+        raise AnalysisError(f"{mesh_f.where}: the way mesh levels are built is not recognised (neither cache.extend(<dict comprehension> for i in range) nor a loop appending one filtered level per step)")
+    node0, rng, ivar, src, filters, key, pvar = summ
+    want = {"range": (rng, f"range(len(self.cache), {lvm} + 1)"), "source": (src, f"Perm.of_length({ivar})"), "filter": (" and ".join(filters), f"{pvar}.avoids(*self.basis)"), "key": (key, pvar)}
+    bad = []
+    for what_, (got, exp) in want.items():
+        if got.replace(" ", "") == exp.replace(" ", ""):
+            continue
+        from ..skelrules import edit_distance, spec_from_src
+
+        try:
+            d = edit_distance(spec_from_src(f"return {got}") if got else ("true",), spec_from_src(f"return {exp}"), 1)
+        except Exception:  # pylint: disable=broad-except
+            d = None
+        if what_ == "filter" and got.startswith(f"{pvar}.avoids(") and "self.basis" in got:
+            d = 1  # tests avoidance of only part of the basis
+        if d == 1:
+            bad.append(f"{what_} is `{got or 'absent'}`, expected `{exp}`")
+        else:
+            raise AnalysisError(f"{mesh_f.where}: {what_} of the mesh level construction `{got}` not recognised (expected `{exp}`)")
+    if bad:
+        ctx.violation("C02-E1", mesh_f, node0, "mesh levels are not `{p for p in Perm.of_length(i) if p.avoids(*self.basis)}` for i = len(self.cache) .. requested level: " + "; ".join(bad))
     else:
-        ctx.violation("C02-E1", mesh_f, ext[0].stmt if ext else mesh_f.node, "mesh levels are not `{p for p in Perm.of_length(i) if p.avoids(*self.basis)}` for i = len(self.cache) .. requested level")
-    # dispatch
-    disp = [st for st in ens.body if isinstance(st, ast.If)]
-    if len(disp) == 1 and unparse(disp[0].test) == "isinstance(self.basis, Basis)" and len(disp[0].body) == 1 and len(disp[0].orelse) == 1 and unparse(disp[0].body[0]) == f"self.{cls_f.name}({ens.params[1]})" and unparse(disp[0].orelse[0]) == f"self.{mesh_f.name}({ens.params[1]})":
-        ctx.ok("C02-E1", ens.where, "classical bases -> insertion construction, everything else -> filtering", disp[0], ens)
-    elif len(disp) == 1 and unparse(disp[0].test) == "isinstance(self.basis, Basis)":
-        ctx.violation("C02-E1", ens, disp[0], "the two level constructions are dispatched to the wrong kind of basis")
-    else:
+        ctx.ok("C02-E1", mesh_f.where, "mesh bases: level i = every permutation of length i that avoids the whole basis, for i = len(cache) .. requested", node0, mesh_f)
+    # dispatch: under which condition on the kind of basis is each construction reached?
+    pol = dispatch_polarity(m, [cls_f, mesh_f])
+    if pol is None:
         raise AnalysisError(f"{ens.where}: dispatch on the kind of basis not recognised")
+    host, c_pol, m_pol, node = pol
+    if c_pol == "Basis" and m_pol == "not Basis":
+        ctx.ok("C02-E1", host.where, "classical bases -> insertion construction, everything else -> filtering", node, host)
+    elif c_pol == "not Basis" and m_pol == "Basis":
+        ctx.violation("C02-E1", host, node, "the two level constructions are dispatched to the wrong kind of basis")
+    else:
+        raise AnalysisError(f"{host.where}: dispatch on the kind of basis not recognised ({cls_f.name}: {c_pol}; {mesh_f.name}: {m_pol})")
     # ---- E2: compaction leaves the last two levels expandable
     lvl = ens.params[1]
     comp = [st for st in ens.body if isinstance(st, ast.For)]
@@ -477,7 +658,10 @@ def rule_e1(ctx: Ctx, m: SharedModel) -> None:
     # the lower bound is computed before the levels are added (otherwise already needed data of new levels is safe anyway)
     start_txt = unparse(it.args[0])
     starts = [st for st in ens.body if isinstance(st, ast.Assign) and unparse(st.targets[0]) == start_txt]
-    if starts and ens.body.index(starts[0]) < ens.body.index(disp[0]) and unparse(starts[0].value) in ("max(0, len(self.cache) - 2)",):
+    grow_pos = min((i for i, st in enumerate(ens.body) if any(isinstance(n, ast.Attribute) and n.attr in (cls_f.name, mesh_f.name) for n in ast.walk(st))
+                    or any(isinstance(n, ast.Call) and isinstance(n.func, ast.Attribute) and isinstance(n.func.value, ast.Name) and n.func.value.id == "self" and ctx.repo.method("Av", n.func.attr) is not None
+                           and ctx.repo.method("Av", n.func.attr).where == host.where for n in ast.walk(st))), default=None)
+    if starts and grow_pos is not None and ens.body.index(starts[0]) < grow_pos and unparse(starts[0].value) in ("max(0, len(self.cache) - 2)",):
         ctx.ok("C02-E2", ens.where, "compaction starts at the first level that may still hold insertion data (two before the old end)", starts[0], ens)
     elif starts:
         ctx.note(f"C02-E2: compaction start `{unparse(starts[0].value)}` not in the recognised form (only efficiency depends on it)")
